@@ -63,3 +63,7 @@ impl SimulationBoundary {
         ]
     }
 }
+
+#[cfg(kani)]
+#[path = "/verif/kani/boundary_priv.rs"]
+mod verif_kani_boundary;
